@@ -508,7 +508,9 @@ def replay(pyhf, backend, precision, chunk, seed=0, likelihood=True):
                     finding(f"{what} is only stopped by a foreign exception {type(exc).__name__}", dict(ctx, exception=f"{type(exc).__name__}: {exc}"[:300]),
                             tags + ["expect:refuse", f"got:{type(exc).__name__}"])
                     break
-                if type(exc).__name__ != im["exc"] and im["st"] == "refuse":
+                if im["st"] == "ok":
+                    drift(f"{what}: refused with {type(exc).__name__} as the definition demands; the transcription of workspace.py predicts acceptance")
+                elif type(exc).__name__ != im["exc"]:
                     drift(f"{what}: raised {type(exc).__name__}, transcription predicts {im['exc']}")
                 nontrivial = nontrivial or case["left"]["ver"] == case["right"]["ver"]
                 break
@@ -525,7 +527,8 @@ def replay(pyhf, backend, precision, chunk, seed=0, likelihood=True):
                 finding(f"{what}: the result shares mutable objects with an input workspace", ctx, tags + ["result:aliased"])
                 break
             try:
-                pyhf.schema.validate(dict(res), "workspace.json", version="1.0.0")
+                if last:       # (earlier steps are the last step of their own, shorter, case)
+                    pyhf.schema.validate(dict(res), "workspace.json", version="1.0.0")
             except Exception as e:  # noqa: BLE001
                 finding(f"{what} returned a workspace that is not schema-valid", dict(ctx, returned=dict(res), error=str(e)[:300]), tags + ["result:schema"])
                 break
